@@ -499,7 +499,7 @@ fn o16_10_arbitrary_bytes_exact_length() {
     std::mem::forget(r);
 }
 
-//@h props=C16,C18,C03 tier=quick timeout=300 role=codec-arbitrary-bytes
+//@h props=C18,C16,C03 tier=quick timeout=300 role=codec-arbitrary-bytes
 //@fn read_handshake_syn_payload
 //@bound payload length any in 0..=1600 (the slice is a window of a symbolic 1600-byte buffer)
 #[kani::proof]
